@@ -28,7 +28,8 @@ EXPLANATION = (
     'below every lattice with a free slot in each of the five abstract '
     'states (full / holds the feature / empty), the best score is taken, and '
     'the number of placements equals num_lattices * lattice_rank, so no '
-    'lattice exceeds lattice_rank (W7).')
+    'lattice exceeds lattice_rank (W7).'
+    ' The Crystals score normalisations are guarded against a zero divisor (D3; the slot allocation is a known finding).')
 ASSUMPTIONS = ['np.random.RandomState(seed) / np.random.seed(seed) make all '
                'later draws a function of the seed',
                'sorted() of the two dict key strings is stable']
